@@ -90,8 +90,13 @@ class Run:
         rep = json.load(open(out))
         rep["cmd"] = " ".join(cmd)
         rep["console"] = o
-        os.makedirs(os.path.dirname(cpath), exist_ok=True)
-        json.dump(rep, open(cpath, "w"))
+        # only a completely successful run is worth remembering: an undischarged obligation may be an effect of the
+        # moment (a wall-clock safety limit under load) and must be recomputed next time
+        clean = all(f["status"] == "verified" for f in rep.get("functions") or []) and all(
+            o["status"] == "discharged" or o["expect"] == "sat" for o in rep.get("obligations") or [])
+        if clean:
+            os.makedirs(os.path.dirname(cpath), exist_ok=True)
+            json.dump(rep, open(cpath, "w"))
         return self.filter_prop(rep, spec.get("prop"))
 
     def filter_prop(self, rep, prop):
